@@ -24,7 +24,10 @@ MembersMatch(ev, b) ==
   ViewsOk(vs) /\ ev.obs.members = [j \in 1..Len(vs) |-> vs[j].v]
 
 NextBuf(ev, whole) ==
-  CASE ev.ev = "Parse"   -> Slice(ev.input, 0, SizeOf(T(ev), M(ev)))
+  CASE ev.ev = "Parse"   -> \* the harness feeds at least len(T) bytes as the implementation reports it; should that be less than the
+                            \* specified size the verdict is "size" and the window is completed with zeros so the trace goes on
+                            LET sz == SizeOf(T(ev), M(ev)) IN
+                            IF Len(ev.input) >= sz THEN Slice(ev.input, 0, sz) ELSE ev.input \o Zeros(sz - Len(ev.input))
     [] ev.ev = "Default" -> Zeros(SizeOf(T(ev), M(ev)))
     [] ev.ev = "Assign"  -> AssignBuf(T(ev), M(ev), buf, ev.path, ev.value, K(ev), whole)
 
@@ -39,7 +42,7 @@ Clauses(ev, spec, dev) ==
           \cup (IF (okspec \/ okdev) /\ ev.obs.dumps.status = "ok" /\ ev.obs.dumps.b = AndBytes(b, mask) THEN {}
                 ELSE IF (okspec \/ okdev) /\ ev.obs.dumps.status = "ok" /\ ev.obs.dumps.b = EncodeKnownDeviation(T(ev), M(ev), uv) THEN {"dumps", "KF:F16"}
                 ELSE {"dumps"})
-          \cup (IF ev.ev = "Parse" /\ ev.obs.pos # SizeOf(T(ev), M(ev)) THEN {"size"} ELSE {})
+          \cup (IF ev.ev = "Parse" /\ (ev.obs.pos # SizeOf(T(ev), M(ev)) \/ Len(ev.input) < SizeOf(T(ev), M(ev))) THEN {"size"} ELSE {})
 
 Init == l = 1 /\ buf = << >>
 Step == /\ l <= Len(Events)
